@@ -663,6 +663,24 @@ struct Pipeline {
 
     void setup(bool with_watcher = true) {
         plan = make_plan(cx.seed, cx.prop);
+        if (cx.prop == "C04" && cx.slots == 78) {
+            // deterministic hint sweep: slot = (bit 0..38, mode). Bits 0..17 query-response hints, 18..34 signature hints,
+            // 35..36 RR hints, 37..38 other-data hints; mode 0 = that bit is the only cleared one, mode 1 = the only set one
+            // (within its mask; the other masks stay all-ones so that the bit's effect is observable).
+            unsigned bit = cx.slot / 2, mode = cx.slot % 2;
+            CDNS::StorageHints& h = plan.sw.sets[0].storage_parameters.storage_hints;
+            h = CDNS::StorageHints();
+            auto apply = [&](uint32_t all, unsigned b) { return mode == 0 ? (all & ~(1u << b)) : (1u << b); };
+            if (bit < 18) h.query_response_hints = apply(0x3ffff, bit);
+            else if (bit < 35) h.query_response_signature_hints = apply(0x1ffff, bit - 18);
+            else if (bit < 37) h.rr_hints = (uint8_t)apply(3, bit - 35);
+            else h.other_data_hints = (uint8_t)apply(3, bit - 37);
+            plan.sw.sets.resize(1);
+            plan.sw.late_sets.clear();
+            plan.sw.w_add = 0;
+            cx.ctr->add("probe.hint_sweep_slot_" + std::string(mode ? "only-set" : "only-cleared"));
+            cx.tag("hint-sweep");
+        }
         const gen::Swarm& s = plan.sw;
         cx.n_ops = (unsigned)plan.ops.size();
         ext = s.compression == 1 ? ".gz" : s.compression == 2 ? ".xz" : "";
